@@ -76,15 +76,21 @@ package plugins
 //@   inv limit_means_committed: l.limitReached ==> l.wroteHeader
 //@   inv recorded_status_is_final: l.statusCode == 0 || !informational(l.statusCode)
 
+// (an implicit 200 - the handler started with Write or Flush - that announces more than the limit is refused here,
+// as WriteHeader does for an explicit status)
+//@ pred implicitExcess(l *limitedResponseWriter) := !l.wroteHeader && l.statusCode == 0 && announcesTooMuch(l, 200)
 //@ func (*limitedResponseWriter).ensureHeaderWritten
 //@   props C14
 //@   requires lrw.ResponseWriter != nil && (lrw.statusCode == 0 || !informational(lrw.statusCode))
+//@   requires !lrw.wroteHeader ==> !lrw.ResponseWriter.committed || lrw.ResponseWriter.hijacked
 //@   ensures sent: lrw.wroteHeader
-//@   ensures first_commit: !old(lrw.wroteHeader) ==> lrw.statusCode == (old(lrw.statusCode) == 0 ? 200 : old(lrw.statusCode))
-//@             && (!old(lrw.ResponseWriter.committed) ==> lrw.ResponseWriter.committed && lrw.ResponseWriter.status == lrw.statusCode)
-//@   ensures already: old(lrw.wroteHeader) ==> lrw.statusCode == old(lrw.statusCode) && lrw.ResponseWriter.status == old(lrw.ResponseWriter.status) && lrw.ResponseWriter.committed == old(lrw.ResponseWriter.committed)
+//@   ensures first_commit: !old(lrw.wroteHeader) && !old(implicitExcess(lrw)) ==> lrw.statusCode == (old(lrw.statusCode) == 0 ? 200 : old(lrw.statusCode))
+//@             && (!old(lrw.ResponseWriter.committed) ==> lrw.ResponseWriter.committed && lrw.ResponseWriter.status == lrw.statusCode) && lrw.limitReached == old(lrw.limitReached)
+//@   ensures an_announced_excess_behind_an_implicit_200_is_refused: old(implicitExcess(lrw)) ==> lrw.limitReached && refusalSent(lrw, old(lrw.ResponseWriter.flushes))
+//@             && (!old(lrw.ResponseWriter.committed) ==> lrw.ResponseWriter.committed && lrw.ResponseWriter.status == 413)
+//@   ensures already: old(lrw.wroteHeader) ==> lrw.statusCode == old(lrw.statusCode) && lrw.ResponseWriter.status == old(lrw.ResponseWriter.status) && lrw.ResponseWriter.committed == old(lrw.ResponseWriter.committed) && lrw.limitReached == old(lrw.limitReached)
 //@   ensures body_kept: lrw.ResponseWriter.bodyLen == old(lrw.ResponseWriter.bodyLen)
-//@   modifies lrw.wroteHeader, lrw.statusCode, http.ResponseWriter.committed, http.ResponseWriter.status, http.ResponseWriter.ceAtCommit, http.ResponseWriter.clAtCommit
+//@   modifies lrw.wroteHeader, lrw.statusCode, lrw.limitReached, http.Header.vals, http.ResponseWriter.committed, http.ResponseWriter.status, http.ResponseWriter.ceAtCommit, http.ResponseWriter.clAtCommit, http.ResponseWriter.flushes
 
 // C14 "the client gets 413 if the excess is detected before anything was sent": the 413 must actually reach the client.
 // net/http sends a status on the first body write, on Flush, or when the handler returns - and the handler behind the
@@ -154,9 +160,9 @@ package plugins
 //@   props C14
 //@   requires inv(lrw)
 //@   ensures inv: inv(lrw)
-//@   ensures flush_sends_recorded_status: !old(lrw.limitReached) && !old(lrw.wroteHeader) && !old(lrw.ResponseWriter.committed)
+//@   ensures flush_sends_recorded_status: !old(lrw.limitReached) && !old(lrw.wroteHeader) && !old(lrw.ResponseWriter.committed) && !old(implicitExcess(lrw))
 //@             ==> lrw.ResponseWriter.status == (old(lrw.statusCode) == 0 ? 200 : old(lrw.statusCode))
-//@   modifies lrw.wroteHeader, lrw.statusCode, http.ResponseWriter.committed, http.ResponseWriter.status, http.ResponseWriter.ceAtCommit, http.ResponseWriter.clAtCommit, http.ResponseWriter.flushes
+//@   modifies lrw.wroteHeader, lrw.statusCode, lrw.limitReached, http.Header.vals, http.ResponseWriter.committed, http.ResponseWriter.status, http.ResponseWriter.ceAtCommit, http.ResponseWriter.clAtCommit, http.ResponseWriter.flushes
 
 //@ func (*limitedResponseWriter).Hijack
 //@   props C14 C20
@@ -165,7 +171,9 @@ package plugins
 //@   ensures hijack_forwarded: implements(lrw.ResponseWriter, http.Hijacker) && result2 == nil ==> lrw.ResponseWriter.hijacked
 //@   ensures same_connection_as_the_wrapped_writer: implements(lrw.ResponseWriter, http.Hijacker) ==> result0.dyn == hconn_tag(ptr(lrw.ResponseWriter)) && result0.ref == hconn_val(ptr(lrw.ResponseWriter)) && ptr(result1) == hbrw(ptr(lrw.ResponseWriter))
 //@   ensures unsupported_is_an_error: !implements(lrw.ResponseWriter, http.Hijacker) ==> result2 != nil
-//@   modifies lrw.wroteHeader, http.ResponseWriter.hijacked
+//@   ensures a_status_recorded_before_the_hijack_is_sent_first: implements(lrw.ResponseWriter, http.Hijacker) && !old(lrw.wroteHeader) && !old(lrw.limitReached) && old(lrw.statusCode) != 0 && !old(lrw.ResponseWriter.committed)
+//@             ==> lrw.ResponseWriter.committed && lrw.ResponseWriter.status == old(lrw.statusCode)
+//@   modifies lrw.wroteHeader, lrw.statusCode, lrw.limitReached, http.Header.vals, http.ResponseWriter.hijacked, http.ResponseWriter.committed, http.ResponseWriter.status, http.ResponseWriter.ceAtCommit, http.ResponseWriter.clAtCommit, http.ResponseWriter.flushes
 
 //@ func (*limitedResponseWriter).finish
 //@   props C14
@@ -173,7 +181,7 @@ package plugins
 //@   ensures inv: inv(lrw)
 //@   ensures bodiless_status_is_sent: !old(lrw.limitReached) && old(lrw.statusCode) != 0 && !lrw.ResponseWriter.hijacked ==> lrw.ResponseWriter.committed && lrw.ResponseWriter.status == old(lrw.statusCode)
 //@   ensures body_kept: lrw.ResponseWriter.bodyLen == old(lrw.ResponseWriter.bodyLen)
-//@   modifies lrw.wroteHeader, lrw.statusCode, http.ResponseWriter.committed, http.ResponseWriter.status, http.ResponseWriter.ceAtCommit, http.ResponseWriter.clAtCommit
+//@   modifies lrw.wroteHeader, lrw.statusCode, lrw.limitReached, http.Header.vals, http.ResponseWriter.committed, http.ResponseWriter.status, http.ResponseWriter.ceAtCommit, http.ResponseWriter.clAtCommit, http.ResponseWriter.flushes
 
 // The handler installed by the plugin.
 //@ func newSizeLimitMiddleware$1$1
